@@ -2251,7 +2251,8 @@ class UpdateRisk(Algo):
 
         target.risk[self.measure] = risk
         if depth < self.history:
-            target.risks.loc[target.now, self.measure] = risk
+            # (root.now: an untraded security may not have been updated yet)
+            target.risks.loc[target.root.now, self.measure] = risk
 
     def __call__(self, target):
         unit_risk_frame = target.get_data("unit_risk")[self.measure]
